@@ -29,7 +29,7 @@ from __future__ import annotations
 import ast
 
 from ..effects import EffectAnalyzer, carried
-from ..model import AnalysisError, Program, attr_chain, norm_stmt, walk_no_nested
+from ..model import AnalysisError, Program, attr_chain, norm_stmt, src_line, walk_no_nested
 from ..paths import Engine, Hooks, State
 from ..report import Result
 from ..selftest import Variant
@@ -371,7 +371,7 @@ def _check_class_level_mutables(prog: Program, res: Result):
                                 if isinstance(t, ast.Subscript) and attr_chain(t.value) == f"self.{a}":
                                     muts.append((m, n))
             ok = rebound_in_init or not muts
-            res.ob("R13.8", f"{c.name}.{a}: the class-level container is rebound per instance before it is changed in place (or never changed)", ok, f"{c.module.replace('.', '/')}.py:{st_.lineno}")
+            res.ob("R13.8", f"{c.name}.{a}: the class-level container is rebound per instance before it is changed in place (or never changed)", ok, f"{c.module.replace('.', '/')}.py:{src_line(st_)}")
             if not ok:
                 m, n = muts[0]
                 res.violation("R13.8", f"{cq}|{a}", prog.loc(m, n), m.qualname,
